@@ -1160,11 +1160,12 @@ def check_cases(res: Result, cases: list[dict[str, Any]], rng: common.Rng, deadl
             continue
         if bad:
             continue
-        # failing-input search around the disagreement
+        # failing-input search around the disagreement (bounded: 45 s per run in total)
         found = False
         pre = {"ops": lines[: diff + 1], "probe": False}
+        t_search = time.time()
         for nb in [pre, *neighbours(pre, rng)]:
-            if time.time() > deadline:
+            if time.time() > deadline or res.extra.get("search_s", 0.0) + (time.time() - t_search) > 45:
                 break
             try:
                 b2 = oracle_case(nb)[1]
@@ -1174,6 +1175,7 @@ def check_cases(res: Result, cases: list[dict[str, Any]], rng: common.Rng, deadl
                 report_oracle(res, nb, b2)
                 found = True
                 break
+        res.extra["search_s"] = round(res.extra.get("search_s", 0.0) + (time.time() - t_search), 2)
         if not found:
             res.violate(
                 "correspondence",
@@ -1182,6 +1184,296 @@ def check_cases(res: Result, cases: list[dict[str, Any]], rng: common.Rng, deadl
                 {"case": {"ops": lines[: diff + 1], "probe": False}, "protocol_line": lines[diff], "impl": impl[diff], "model": m[diff],
                  "correspondence": "Driver/C15.lean"},
             )
+
+
+# --------------------------------------------------------------------------- PydanticGrammar stream (oracle only)
+# The Lean model covers SimpleGrammar and JSONGrammar. PydanticGrammar is checked against the property
+# text only, on the operations whose meaning it shares with the other classes: construction from a
+# model, update_from_names/types, update(grammar), restrict_to, rename_element, del, add_namespace,
+# clear, copy, pickle, defaults edits. (required_names edits and merges are not shared: the model decides.)
+
+PYD_VALUES = {"int": "i", "float": "f", "str": "s", "bool": "b", "nd": "nd:ff", "list": "l:ii"}
+PYD_UNSPECIFIED = {("float", "i"), ("int", "b"), ("list", "nd:ff"), ("nd", "l:ii"), ("float", "b"), ("int", "f")}
+
+
+def pyd_token(annotation: Any) -> str:
+    from numpy import ndarray
+    from typing_extensions import get_origin
+
+    from gemseo.utils.pydantic_ndarray import _NDArrayPydantic
+
+    origin = get_origin(annotation) or annotation
+    for tok, t in (("bool", bool), ("int", int), ("float", float), ("str", str), ("list", list)):
+        if origin is t:
+            return tok
+    if origin is _NDArrayPydantic or origin is ndarray:
+        return "nd"
+    return "?"
+
+
+class PydWorld:
+    def __init__(self) -> None:
+        from harness import c15_models
+
+        c15_models.fresh()
+        self.models = c15_models
+        self.slots: list[Any] = [None] * NSLOTS
+
+    def show_slot(self, i: int) -> str:
+        g = self.slots[i]
+        if g is None:
+            return "_"
+        elems = ",".join(f"{n}={pyd_token(g[n].annotation)}" for n in g.keys())
+
+        def ns(m):
+            return ",".join(f"{a}={b if isinstance(b, str) else '[' + '|'.join(b) + ']'}" for a, b in sorted(m.items()))
+
+        return (
+            f"P{{{elems}}}r{{{','.join(sorted(g.required_names))}}}d{{{','.join(sorted(g.defaults))}}}"
+            f"t{{{ns(g.to_namespaced)}}}f{{{ns(g.from_namespaced)}}}"
+        )
+
+    def apply(self, line: str) -> str:
+        from gemseo.core.grammars.pydantic_grammar import PydanticGrammar
+        from gemseo.utils.pydantic_ndarray import NDArrayPydantic
+
+        t = line.split()
+        op = t[0]
+        types = {"int": int, "float": float, "str": str, "bool": bool, "nd": NDArrayPydantic[float], "list": list}
+        if op == "pnew":
+            model = None if t[2] == "-" else getattr(self.models, t[2])
+            self.slots[int(t[1])] = PydanticGrammar(f"g{t[1]}", model=model)
+            return "ok"
+        if op in ("upd", "copy", "pickle"):
+            a, b = int(t[1]), int(t[2])
+            src = self.slots[b] if op == "upd" else self.slots[a]
+            if src is None or (op == "upd" and self.slots[a] is None):
+                return "bad-slot"
+        else:
+            g = self.slots[int(t[1])]
+            if g is None:
+                return "bad-slot"
+        try:
+            if op == "upd":
+                self.slots[a].update(self.slots[b], excluded_names=parse_list(t[3]))
+            elif op == "names":
+                g.update_from_names(parse_list(t[2]))
+            elif op == "types":
+                g.update_from_types({k: types[v] for k, v in parse_kvs(t[2])})
+            elif op == "restrict":
+                g.restrict_to(parse_list(t[2]))
+            elif op == "rename":
+                g.rename_element(t[2], t[3])
+            elif op == "del":
+                del g[t[2]]
+            elif op == "addns":
+                g.add_namespace(t[2], t[3])
+            elif op == "clear":
+                g.clear()
+            elif op == "copy":
+                self.slots[b] = self.slots[a].copy()
+            elif op == "pickle":
+                self.slots[b] = pickle.loads(pickle.dumps(self.slots[a]))
+            elif op == "setdef":
+                g.defaults[t[2]] = int(t[3])
+            elif op == "deldef":
+                g.defaults.pop(t[2], None)
+            else:
+                raise ValueError(op)
+        except Exception as e:  # noqa: BLE001
+            return exc_tag(e)
+        return "ok"
+
+
+def pyd_expected_exception(w: PydWorld, line: str) -> str | None:
+    t = line.split()
+    op = t[0]
+    if op in ("pnew", "clear", "copy", "pickle", "deldef", "names", "types", "upd"):
+        return None
+    g = w.slots[int(t[1])]
+    if g is None:
+        return "?"
+    keys = set(g.keys())
+    if op == "restrict":
+        return None if set(parse_list(t[2])) <= keys else "E:key"
+    if op in ("rename", "del", "setdef"):
+        return None if t[2] in keys else "E:key"
+    if op == "addns":
+        if t[2] not in keys:
+            return "E:key"
+        return "E:value" if ":" in t[2] else None
+    return "?"
+
+
+def pyd_check_grammar(g: Any, rng: common.Rng, bad: list[tuple[str, str]], where: str) -> None:
+    keys = list(g.keys())
+    req = set(g.required_names)
+    if not req <= set(keys):
+        bad.append(("pydantic:wf-required", f"{where}: required names {sorted(req - set(keys))} are not elements {keys}"))
+    if not set(g.defaults) <= set(keys):
+        bad.append(("pydantic:wf-defaults", f"{where}: defaults {sorted(set(g.defaults) - set(keys))} are not elements {keys}"))
+    model_required = {n for n in keys if g[n].is_required()}
+    toks = {n: pyd_token(g[n].annotation) for n in keys}
+    good = {n: PYD_VALUES.get(toks[n], "s") for n in keys}
+    datas = [dict(good), {}, {n: good[n] for n in keys if n in req}]
+    for n in keys[:4]:
+        d = dict(good)
+        del d[n]
+        datas.append(d)
+        d = dict(good)
+        d[n] = rng.pick(sorted(PYD_VALUES.values()))
+        datas.append(d)
+    for d in datas:
+        data = {k: value_of(v) for k, v in d.items()}
+        got = accepts(g, data)
+        exp: bool | None = all(r in d for r in req)
+        if exp:
+            for n, v in d.items():
+                tk = toks.get(n)
+                if tk is None:
+                    continue
+                if tk == "?" or (tk, v) in PYD_UNSPECIFIED:
+                    exp = None
+                    break
+                if PYD_VALUES[tk] != v:
+                    exp = False
+                    break
+        if exp is not None and got is not exp:
+            bad.append(("pydantic:accept-iff", f"{where}: validate({d}) = {got} but the current definition (required {sorted(req)}, model fields without default {sorted(model_required)}, types {toks}) says {exp}"))
+            break
+
+
+def pyd_oracle(lines: list[str], seed_key: str) -> list[tuple[str, str]]:
+    rng = common.make_rng(0, "C15-pyd:" + seed_key)
+    bad: list[tuple[str, str]] = []
+    w = PydWorld()
+    for idx, ln in enumerate(lines):
+        t = ln.split()
+        op = t[0]
+        before = [w.show_slot(i) for i in range(NSLOTS)]
+        exp_exc = pyd_expected_exception(w, ln)
+        st = w.apply(ln)
+        after = [w.show_slot(i) for i in range(NSLOTS)]
+        where = f"step {idx} `{ln}`"
+        if st == "bad-slot":
+            continue
+        if exp_exc != "?":
+            if exp_exc is None and st.startswith("E:"):
+                bad.append((f"pydantic:unexpected-exception:{op}", f"{where} raised {st} although its documented preconditions hold"))
+            elif exp_exc is not None and st != exp_exc:
+                bad.append((f"pydantic:missing-exception:{op}", f"{where} answered {st}, documented: {exp_exc}"))
+        allowed = {int(t[2])} if op in ("copy", "pickle") else {int(t[1])}
+        for i in range(NSLOTS):
+            if i not in allowed and before[i] != after[i]:
+                bad.append((f"pydantic:frame:{op}", f"{where} changed slot {i}: {before[i]} -> {after[i]}"))
+        if op in ("copy", "pickle") and st == "ok" and before[int(t[1])] != after[int(t[2])]:
+            bad.append((f"pydantic:{op}-definition", f"{where}: result {after[int(t[2])]} differs from the source {before[int(t[1])]}"))
+        for i in range(NSLOTS):
+            if w.slots[i] is not None:
+                pyd_check_grammar(w.slots[i], rng, bad, f"{where} slot {i}")
+        if [w.show_slot(i) for i in range(NSLOTS)] != after:
+            bad.append(("pydantic:query-impure", f"{where}: validating changed the public state"))
+        if bad:
+            break
+    return bad
+
+
+def gen_pyd_case(rng: common.Rng) -> list[str]:
+    lines: list[str] = []
+    keys: dict[int, list[str]] = {}
+
+    def new(s: int) -> None:
+        m = rng.pick(["M1", "M2", "-", "M1"])
+        lines.append(f"pnew {s} {m}")
+        from harness import c15_models
+
+        keys[s] = list(c15_models.SPEC[m]) if m != "-" else []
+
+    new(0)
+    for _ in range(rng.pick([1, 2, 3, 4, 6, 8, 12])):
+        s = rng.pick(sorted(keys))
+        ks = keys[s]
+
+        def ex() -> str:
+            return rng.pick(ks) if ks and not rng.chance(0.08) else rng.pick(NAMES)
+
+        op = rng.pick(["names"] * 3 + ["types"] * 3 + ["upd"] * 3 + ["restrict"] * 2 + ["rename"] * 3 + ["del"] * 3 + ["addns"] * 2
+                      + ["clear"] + ["copy"] * 4 + ["pickle"] * 3 + ["setdef"] * 2 + ["deldef"] + ["pnew"] * 2)
+        if op == "names":
+            ns = [n for n in rng.sample(NAMES, rng.randint(1, 2))]
+            lines.append(f"names {s} {','.join(ns)} 0")
+            keys[s] = ks + [n for n in ns if n not in ks]
+        elif op == "types":
+            ns = [n for n in rng.sample(NAMES, rng.randint(1, 2))]
+            lines.append(f"types {s} " + ",".join(f"{n}={rng.pick(sorted(PYD_VALUES))}" for n in ns) + " 0")
+            keys[s] = ks + [n for n in ns if n not in ks]
+        elif op == "upd":
+            src = rng.pick(sorted(keys))
+            excl = [n for n in keys[src] if rng.chance(0.2)]
+            lines.append(f"upd {s} {src} {','.join(excl) or '-'} 0")
+            keys[s] = ks + [n for n in keys[src] if n not in ks and n not in excl]
+        elif op == "restrict":
+            ns = [n for n in ks if rng.chance(0.6)]
+            lines.append(f"restrict {s} {','.join(ns) or '-'}")
+            keys[s] = ns
+        elif op == "rename":
+            cur, new_ = ex(), rng.pick(NAMES + ["w", "v"])
+            lines.append(f"rename {s} {cur} {new_}")
+            if cur in ks:
+                keys[s] = [n for n in ks if n != cur and n != new_] + [new_]
+        elif op == "del":
+            n = ex()
+            lines.append(f"del {s} {n}")
+            keys[s] = [x for x in ks if x != n]
+        elif op == "addns":
+            n = ex()
+            lines.append(f"addns {s} {n} n")
+            if n in ks and ":" not in n:
+                keys[s] = [x for x in ks if x != n] + [f"n:{n}"]
+        elif op == "clear":
+            lines.append(f"clear {s}")
+            keys[s] = []
+        elif op in ("copy", "pickle"):
+            d = rng.pick([i for i in range(NSLOTS) if i != s])
+            lines.append(f"{op} {s} {d}")
+            keys[d] = list(ks)
+        elif op == "setdef":
+            lines.append(f"setdef {s} {ex()} {rng.randint(1, 9)}")
+        elif op == "deldef":
+            lines.append(f"deldef {s} {ex()}")
+        elif op == "pnew":
+            free = [i for i in range(NSLOTS) if i not in keys]
+            new(rng.pick(free) if free else rng.pick(sorted(keys)))
+    return lines
+
+
+def check_pydantic(res: Result, rng: common.Rng, n: int, deadline: float) -> None:
+    corpus = []
+    d = common.CORPUS_DIR / PID
+    if d.is_dir():
+        for p in sorted(d.glob("pydantic-*.json")):
+            corpus.append(json.loads(p.read_text())["pydantic_case"])
+    for k in range(len(corpus) + n):
+        if time.time() > deadline:
+            break
+        lines = corpus[k] if k < len(corpus) else gen_pyd_case(rng)
+        res.evaluations += 1
+        res.count("pydantic-case")
+        for ln in lines:
+            res.count("pop=" + ln.split()[0])
+        if len(lines) >= 3:
+            res.nontrivial("pyd\n" + "\n".join(lines))
+        bad = pyd_oracle(lines, "\n".join(lines))
+        for key, msg in bad[:2]:
+            if any(v.key == key for v in res.violations):
+                continue
+
+            def fails(ops: list[str], key=key) -> bool:
+                return any(k2 == key for k2, _ in pyd_oracle(ops, "\n".join(ops)))
+
+            small = common.shrink_list(lines, fails, budget=80) if len(lines) > 1 else lines
+            msgs = [m for k2, m in pyd_oracle(small, "\n".join(small)) if k2 == key]
+            res.violate("oracle", key, msgs[0] if msgs else msg, {"pydantic_case": small})
 
 
 # --------------------------------------------------------------------------- shipped JSON grammar files
@@ -1294,6 +1586,7 @@ def run(ctx) -> Result:
     check_cases(res, corpus, rng, ctx.deadline)
     res.count("corpus", len(corpus))
     check_shipped_files(res, rng)
+    check_pydantic(res, common.make_rng(ctx.seed, "C15-pydantic"), 1500 if ctx.thorough else 150, ctx.deadline)
     n = 6000 if ctx.thorough else 500
     soft_deadline = min(ctx.deadline, ctx.t0 + (900 if ctx.thorough else 100))
     done = 0
@@ -1315,6 +1608,14 @@ def replay(path: str) -> int:
         for v in res.violations:
             print("ORACLE FAILS:", v.key, v.what)
         return 1 if res.violations else 0
+    if "pydantic_case" in rp:
+        bad = pyd_oracle(rp["pydantic_case"], "\n".join(rp["pydantic_case"]))
+        w = PydWorld()
+        for ln in rp["pydantic_case"]:
+            print(f"> {ln}\n   impl : {w.apply(ln)}|" + "|".join(w.show_slot(i) for i in range(NSLOTS)))
+        for k, msg in bad:
+            print("ORACLE FAILS:", k, msg)
+        return 1 if bad else 0
     case = rp["case"]
     case.setdefault("probe", False)
     impl, bad = oracle_case(case)
